@@ -36,10 +36,13 @@ Section Archive.
 
   Definition slice (l : list N) (a b : N) : list N := takeN (b - a) (dropN a l).
 
-  (* compression_from_dictionary (default features: lzma and zstd not enabled) *)
+  (* compression_from_dictionary. The verification builds enable every codec feature (lzma-compression,
+     zstd-compression); the default build of bitar answers InvalidArchive for LZMA and ZSTD instead. *)
+  Definition supported_compression (t : N) : bool :=
+    (t =? E_CompressionType_BROTLI) || (t =? E_CompressionType_ZSTD) || (t =? E_CompressionType_LZMA).
   Definition comp_of (c : compression) : outcome (option (N * N)) :=
     if z_type c =? E_CompressionType_NONE then Ok None
-    else if z_type c =? E_CompressionType_BROTLI then Ok (Some (z_type c, z_level c))
+    else if supported_compression (z_type c) then Ok (Some (z_type c, z_level c))
     else Err E_INVALID.
 
   (* chunker_config_from_params, with the validation of untrusted values *)
